@@ -29,9 +29,40 @@ class GraphParam:
 
 
 class DelegWorld(GraphWorld):
+    """Graph state around a bulk helper: every fact about the nodes / pairs it might look at is a choice,
+    stored values it might read are opaque and comparisons with them are choices too."""
+
     def __init__(self, cfg, ot, choices, methods):
         super().__init__(cfg, ot, choices, methods)
         self.calls = []
+        self.nopaque = 0
+
+    def node_exists(self, role):
+        if self.node_created.get(role):
+            return True
+        return self.choose(("node_exists", role))
+
+    def pair_exists(self, store, r1, r2):
+        if not (self.node_exists(r1) and self.node_exists(r2)):
+            return False
+        key = (r1, r2) if self.directed else tuple(sorted((r1, r2)))
+        return self.choose(("pair_exists", key))
+
+    def pair_dict(self, store, r1, r2, node):
+        if not self.pair_exists(store, r1, r2):
+            raise AbstractRaise("KeyError", node, detail="no adjacency entry")
+        return Opaque("stored")
+
+    def load_subscript(self, ip, obj, key, node):
+        if isinstance(obj, Opaque):
+            return Opaque("stored")
+        return super().load_subscript(ip, obj, key, node)
+
+    def compare(self, ip, a, sym, b, node):
+        if isinstance(a, Opaque) or isinstance(b, Opaque):
+            self.nopaque += 1
+            return self.choose(("opaque_compare", getattr(node, "lineno", 0), getattr(node, "col_offset", 0), self.nopaque))
+        return None
 
     def load_attr(self, ip, obj, attr, node):
         if isinstance(obj, GraphParam):
@@ -107,87 +138,117 @@ def check_delegation(repo: Repo, add):
                     want = expected_pairs(kind, nodes)
                 ot = OrderType([["s"]] if not has_e else [["s"], ["E"]], [] if not has_e else [1], 2)
                 cfg = dict(cls=cls, directed=cls == "DynDiGraph", removal=True, exists=False)
-                w = DelegWorld(cfg, ot, {}, methods)
-                ip = TryTrackingInterp(w, ot)
-                env = {}
-                for p in params:
-                    if p == "self":
-                        env[p] = SelfV()
-                    elif p == "G":
-                        env[p] = GraphParam(cls)
-                    elif p in ("ebunch", "nodes"):
-                        env[p] = seq
-                    elif p == "t":
-                        env[p] = Int("s")
-                    elif p == "e":
-                        env[p] = Int("E") if has_e else NONE
-                    else:
-                        raise AnalysisError("%s: unmodelled parameter %s" % (construct, p))
-                if fn.args.kwarg:
-                    env[fn.args.kwarg.arg] = DictObj()
                 wit = "%s(%s, t=s%s) with %d element(s)" % (qual, "ebunch" if kind == "from" else "nodes",
                                                             ", e=E" if has_e else "", k)
-                try:
-                    ip.call_function(fn, env)
-                except AbstractRaise as r:
+
+                def once(ch, seq=seq):
+                    w = DelegWorld(cfg, ot, ch, methods)
+                    ip = TryTrackingInterp(w, ot)
+                    env = {}
+                    for p in params:
+                        if p == "self":
+                            env[p] = SelfV()
+                        elif p == "G":
+                            env[p] = GraphParam(cls)
+                        elif p in ("ebunch", "nodes"):
+                            env[p] = ListObj(list(seq.items))
+                        elif p == "t":
+                            env[p] = Int("s")
+                        elif p == "e":
+                            env[p] = Int("E") if has_e else NONE
+                        else:
+                            raise AnalysisError("%s: unmodelled parameter %s" % (construct, p))
+                    if fn.args.kwarg:
+                        env[fn.args.kwarg.arg] = DictObj()
+                    try:
+                        ip.call_function(fn, env)
+                        return w, None
+                    except AbstractRaise as r:
+                        return w, r
+                for ch, (w, r) in run_all_choices(once, max_runs=512):
+                  if r is not None:
                     if kind != "from" and k == 0:
                         continue
-                    add("C01.bulk", construct, "raises:%s" % r.exc, "%s raises %s (%s)" % (qual, r.exc, r.detail), wit,
-                        getattr(r.node, "lineno", 0))
+                    if r.explicit:
+                        add("C07.bulk", construct, "helper-raises:%s" % r.exc,
+                            "%s raises %s itself after %d of %d elements were applied: the state after a failure must "
+                            "be the state after the preceding elements, which only add_interaction's own rejection "
+                            "guarantees" % (qual, r.exc, len(w.calls), k), wit, getattr(r.node, "lineno", 0))
+                    else:
+                        add("C01.bulk", construct, "raises:%s" % r.exc, "%s raises %s (%s)" % (qual, r.exc, r.detail), wit,
+                            getattr(r.node, "lineno", 0))
                     continue
-                got = w.calls
-                if w.effects:
-                    add("C07.bulk", construct, "writes-state-itself",
-                        "the helper writes graph state itself (%s) instead of only delegating" % (w.effects[0][0],), wit,
-                        w.effects[0][1])
-                if any(c[5] for c in got):
-                    add("C07.bulk", construct, "call-inside-try",
-                        "add_interaction is called inside a try block: a failing element would not stop the bulk update", wit)
-                pairs = [(c[0], c[1]) for c in got]
-                if pairs != want:
-                    add("C01.bulk", construct, "pairs:%s" % kind,
-                        "reaches add_interaction with pairs %s, the %s idiom requires %s" % (pairs, kind, want), wit)
-                    continue
-                for (u, v, t, e, _, _) in got:
-                    if not (isinstance(t, Int) and t.term() == ("s", 0)):
-                        add("C01.bulk", construct, "t-not-forwarded",
-                            "add_interaction receives t=%r instead of the caller's t (a list built once would be "
-                            "shared by all pairs of the call)" % (t,), wit)
-                        break
-                    exp_e = Int("E") if has_e else NONE
-                    if not ((isinstance(e, Int) and isinstance(exp_e, Int) and e.term() == exp_e.term()) or
-                            (isinstance(e, Const) and e.v is None and not has_e)):
-                        add("C01.bulk", construct, "e-not-forwarded",
-                            "add_interaction receives e=%r instead of the caller's e" % (e,), wit)
-                        break
-                if len(samples) < 3 and k == 3:
-                    samples.append(dict(helper=construct, calls=[repr(c[:4]) for c in got]))
+                  self_check(add, construct, qual, kind, k, has_e, w, want, wit, samples)
+
         # missing t must be rejected before anything else
         if "t" in params:
             defaults = dict(zip(params[len(params) - len(fn.args.defaults):], fn.args.defaults))
             ot = OrderType([], [], 2)
             cfg = dict(cls=cls, directed=cls == "DynDiGraph", removal=True, exists=False)
-            w = DelegWorld(cfg, ot, {}, methods)
-            ip = TryTrackingInterp(w, ot)
-            env = {}
-            for p in params:
-                env[p] = {"self": SelfV(), "G": GraphParam(cls), "t": NONE, "e": NONE}.get(p)
-                if p in ("ebunch", "nodes"):
-                    env[p] = ListObj([TupleV([NodeV("A1"), NodeV("B1")])]) if kind == "from" else ListObj(
-                        [NodeV("N1"), NodeV("N2")])
-            if fn.args.kwarg:
-                env[fn.args.kwarg.arg] = DictObj()
             n_inst += 1
-            try:
-                ip.call_function(fn, env)
-                # reaching add_interaction with t=None is fine: it rejects (decided by the merge check)
-                if not all(isinstance(c[2], Const) and c[2].v is None for c in w.calls) or not w.calls:
-                    add("C01.bulk", construct, "missing-t-not-rejected",
-                        "%s with t=None neither raises nor forwards None to add_interaction" % qual, "t=None")
-            except AbstractRaise as r:
-                if r.exc != "NetworkXError":
-                    add("C01.bulk", construct, "missing-t:%s" % r.exc, "%s with t=None raises %s" % (qual, r.exc), "t=None")
-                if w.effects or w.calls:
-                    add("C07.bulk", construct, "missing-t-after-work",
-                        "%s adds interactions before rejecting the missing t" % qual, "t=None")
+
+            def once_missing(ch):
+                w = DelegWorld(cfg, ot, ch, methods)
+                ip = TryTrackingInterp(w, ot)
+                env = {}
+                for p in params:
+                    env[p] = {"self": SelfV(), "G": GraphParam(cls), "t": NONE, "e": NONE}.get(p)
+                    if p in ("ebunch", "nodes"):
+                        env[p] = ListObj([TupleV([NodeV("A1"), NodeV("B1")])]) if kind == "from" else ListObj(
+                            [NodeV("N1"), NodeV("N2")])
+                if fn.args.kwarg:
+                    env[fn.args.kwarg.arg] = DictObj()
+                try:
+                    ip.call_function(fn, env)
+                    return w, None
+                except AbstractRaise as r:
+                    return w, r
+            for ch, (w, r) in run_all_choices(once_missing, max_runs=256):
+                if r is None:
+                    # reaching add_interaction with t=None is fine: it rejects (decided by the merge check)
+                    if not all(isinstance(c[2], Const) and c[2].v is None for c in w.calls) or not w.calls:
+                        add("C01.bulk", construct, "missing-t-not-rejected",
+                            "%s with t=None neither raises nor forwards None to add_interaction" % qual, "t=None")
+                    if w.effects:
+                        add("C07.bulk", construct, "missing-t-after-work",
+                            "%s writes graph state (%s) although the missing t makes the call fail" % (qual, w.effects[0][0]),
+                            "t=None", w.effects[0][1])
+                else:
+                    if r.exc != "NetworkXError":
+                        add("C01.bulk", construct, "missing-t:%s" % r.exc, "%s with t=None raises %s" % (qual, r.exc), "t=None")
+                    if w.effects or w.calls:
+                        add("C07.bulk", construct, "missing-t-after-work",
+                            "%s changes the graph (%s) before rejecting the missing t" % (
+                                qual, w.effects[0][0] if w.effects else "add_interaction calls"), "t=None",
+                            w.effects[0][1] if w.effects else 0)
     return n_inst, samples
+
+
+def self_check(add, construct, qual, kind, k, has_e, w, want, wit, samples):
+    got = w.calls
+    if w.effects:
+        add("C07.bulk", construct, "writes-state-itself",
+            "the helper writes graph state itself (%s) instead of only delegating" % (w.effects[0][0],), wit,
+            w.effects[0][1])
+    if any(c[5] for c in got):
+        add("C07.bulk", construct, "call-inside-try",
+            "add_interaction is called inside a try block: a failing element would not stop the bulk update", wit)
+    pairs = [(c[0], c[1]) for c in got]
+    if pairs != want:
+        add("C01.bulk", construct, "pairs:%s" % kind,
+            "reaches add_interaction with pairs %s, the %s idiom requires %s" % (pairs, kind, want), wit)
+        return
+    for (u, v, t, e, _, _) in got:
+        if not (isinstance(t, Int) and t.term() == ("s", 0)):
+            add("C01.bulk", construct, "t-not-forwarded",
+                "add_interaction receives t=%r instead of the caller's t (a list built once would be "
+                "shared by all pairs of the call)" % (t,), wit)
+            break
+        exp_e = Int("E") if has_e else NONE
+        if not ((isinstance(e, Int) and isinstance(exp_e, Int) and e.term() == exp_e.term()) or
+                (isinstance(e, Const) and e.v is None and not has_e)):
+            add("C01.bulk", construct, "e-not-forwarded",
+                "add_interaction receives e=%r instead of the caller's e" % (e,), wit)
+            break
+    if len(samples) < 3 and k == 3:
+        samples.append(dict(helper=construct, calls=[repr(c[:4]) for c in got]))
